@@ -147,6 +147,48 @@ def _j(o):
     return [o[0], o[1] if not isinstance(o[1], dict) else dict(o[1])]
 
 
+def check_shared(case) -> Result:
+    """an accession number or a name that exists in two vocabularies: interleaved lookups must not influence each other"""
+    import peptacular as pt
+    r = Result()
+    r.nontrivial = True
+    r.classes = ['shared-' + case['kind'], 'order=' + case['order']]
+    tabs = {'psimod': obo.psimod(), 'xlmod': obo.xlmod(), 'unimod': obo.unimod()}
+    pre = {'psimod': 'MOD', 'xlmod': 'XLMOD', 'unimod': 'UNIMOD'}
+    dbs = case['dbs'] if case['order'] == 'ab' else list(reversed(case['dbs']))
+    seq = dbs + [dbs[0]]  # a, b, a
+    for db in seq:
+        field = 'id' if case['kind'] == 'accession' else 'name'
+        e = next(x for x in tabs[db] if x[field] == case['key'])
+        sp = f"{pre[db]}:{case['key']}"
+        o = outcome(lambda: pt.mod_mass(sp))
+        if e['mono'] is not None and (o[0] != 'ok' or abs(o[1] - e['mono']) > 1e-5):
+            r.fail('a spelling resolves within its own vocabulary whatever was looked up before', f'C10/shared-{case["kind"]}/{db}/mass',
+                   spelling=sp, got=_j(o), tabulated=e['mono'], lookups_so_far=[f"{pre[d]}:{case['key']}" for d in seq])
+            break
+        oc = outcome(lambda: pt.mod_comp(sp))
+        if e.get('comp') is not None and not _same(oc, ('ok', e['comp'])):
+            r.fail('a spelling resolves within its own vocabulary whatever was looked up before', f'C10/shared-{case["kind"]}/{db}/comp',
+                   spelling=sp, got=_j(oc), tabulated=e['comp'])
+            break
+    return r
+
+
+def shared_cases():
+    ids = {}
+    names = {}
+    for db, fn in (('psimod', obo.psimod), ('xlmod', obo.xlmod), ('unimod', obo.unimod)):
+        for e in fn():
+            ids.setdefault(e['id'], []).append(db)
+            names.setdefault(e['name'], []).append(db)
+    k = 0
+    for kind, table in (('accession', ids), ('name', names)):
+        for key, dbs in sorted(table.items()):
+            if len(dbs) >= 2:
+                k += 1
+                yield {'kind': kind, 'key': key, 'dbs': dbs[:2], 'order': 'ab' if k % 2 else 'ba'}
+
+
 def entry_cases():
     for db, fn in (('unimod', obo.unimod), ('psimod', obo.psimod), ('xlmod', obo.xlmod), ('mono', obo.monosaccharides)):
         for i in range(len(fn())):
@@ -291,5 +333,7 @@ def parts(tier):
     return [
         Part(name='entries', kind='enum', check_case=check_entry, cases=entry_cases, exhaustive=True, shards=16,
              space=f'all {total} entries of the Unimod, PSI-MOD, XLMOD and monosaccharide tables x all spellings x {{mono, average, composition}}'),
+        Part(name='shared-keys', kind='enum', check_case=check_shared, cases=shared_cases, exhaustive=True, shards=4,
+             space='every accession number and every name that occurs in two of the Unimod / PSI-MOD / XLMOD vocabularies, looked up a-b-a'),
         Part(name='generic', kind='hyp', check_case=check_generic, strategy=generic_strategy, examples=n),
     ]
